@@ -26,7 +26,10 @@ def cases(ctx):
         idxs = range(len(tx.inputs)) if rng.random() < 0.3 else [rng.randrange(len(tx.inputs))]
         for i in idxs:
             code = code_script(rng, names, ctx)
-            amt = rng.choice([0, 1, 2 ** 63 - 1, rng.randrange(0, 21 * 10 ** 14), rng.randrange(0, 2 ** 63)])
+            if rng.random() < 0.15:      # BIP143 keeps OP_CODESEPARATOR in the script code
+                pk1, pk2 = G.rbytes(rng, 33).hex(), G.rbytes(rng, 33).hex()
+                code = rng.choice([[pk1, 'OP_CHECKSIGVERIFY', 'OP_CODESEPARATOR', pk2, 'OP_CHECKSIG'], ['OP_CODESEPARATOR'] + list(code), list(code) + ['OP_CODESEPARATOR']])
+            amt = rng.choice([0, 1, 2 ** 63 - 1, 2 ** 53 + 1, 2 ** 60 + 12345, rng.randrange(0, 21 * 10 ** 14), rng.randrange(0, 2 ** 63)])
             hts = TYPES if rng.random() < 0.5 else [rng.choice(TYPES)]
             for ht in hts:
                 ctx.count(f'ht-{ht:02x}')
